@@ -17,7 +17,8 @@ R02c macro invocations are bracketed: in visit_CallMacroNode the body reset (`<m
      is guarded by a comparison of two counters of the macro node; the one incremented together with the reset counts
      started invocations, the other finished ones. Every normal path from the body visit (`yield from` the children visitor
      on the macro node) to the end of the generator increments the finished counter: otherwise the next call of the same
-     macro takes the "complete a started call" branch and continues in the middle of the stale body - lines not started
+     (including the exceptional one: the generator being closed at a yield of the body, i.e. a `finally`) - otherwise the
+     next call of the same macro takes the "complete a started call" branch and continues in the middle of the stale body - lines not started
      from the first, and without the Call macro having started. The reset must be recursive (all lines start again).
 R02d every interpreter command completes: in visit_InterpreterCommandNode every normal path to the end of the generator passes
      tracking.mark_completed(node) (an early `return`, e.g. for a Wait shorter than a tick, leaves the line Started for ever
@@ -237,6 +238,21 @@ def run(ctx) -> None:
         raise AnchorError("visit_CallMacroNode: the body visit (`yield from` on the macro node) was not recognised")
     inst = f"visit_CallMacroNode: every invocation that ends increments the macro's {finished}"
     p = g.path_to_exit_avoiding([d for d, l in g.succ[body[0].id] if l != "exc"], lambda n: incs(n, finished))
+    if p is None:
+        # ... and when the invocation is abandoned at a yield of the body (the Watch/Alarm that made the call is aborted with its
+        # block: the generator is closed) or the body raises: the increment sits in a `finally` around the body visit
+        from ..model import parent_map
+        pm_ = parent_map(f.node)
+        cur_, covered = body[0].ast, False
+        while id(cur_) in pm_:
+            par_ = pm_[id(cur_)]
+            if isinstance(par_, ast.Try) and any(cur_ is s_ for s_ in par_.body) and any(
+                    isinstance(x, ast.AugAssign) and isinstance(x.target, ast.Attribute) and x.target.attr == finished
+                    for fb in par_.finalbody for x in ast.walk(fb)):
+                covered = True
+            cur_ = par_
+        if not covered:
+            p = [body[0]]
     others = [n for n in g.nodes if n.kind == "stmt" and not incs(n, finished) and not incs(n, started[0]) and any(
         t.attr in counters and isinstance(t.value, ast.Name) and t.value.id == mv for t, v, s_ in assigned_attrs(n.ast))]
     if p is None and not others:
